@@ -13,6 +13,11 @@ use crate::{
 
 const STACK_LIMIT: usize = 32;
 
+/// How deeply evaluation may nest (parentheses, function arguments and
+/// bodies, array subscripts, statements nested in IF statements) before
+/// we feign running out of memory, rather than exhausting the native stack.
+const MAX_NESTING: usize = 64;
+
 #[derive(Debug, Default, Copy, Clone, PartialEq)]
 pub enum ProgramLine {
     #[default]
@@ -100,6 +105,7 @@ pub struct Program {
     loop_stack: Vec<LoopInfo>,
     data_iterator: Option<DataIterator>,
     functions: HashMap<Symbol, FunctionDefinition>,
+    nesting: usize,
 }
 
 impl Program {
@@ -172,6 +178,21 @@ impl Program {
             }
             None => None,
         }
+    }
+
+    /// Must be called whenever evaluation is about to recurse, and paired
+    /// with a call to `exit_nested_evaluation` once it's done (whether or
+    /// not it succeeded).
+    pub fn enter_nested_evaluation(&mut self) -> Result<(), TracedInterpreterError> {
+        if self.nesting == MAX_NESTING {
+            return Err(OutOfMemoryError::StackOverflow.into());
+        }
+        self.nesting += 1;
+        Ok(())
+    }
+
+    pub fn exit_nested_evaluation(&mut self) {
+        self.nesting -= 1;
     }
 
     pub fn break_at_current_location(&mut self) {
